@@ -73,10 +73,20 @@ func (vc *VC) pointerOriginV(fn *ssa.Function, v ssa.Value, depth int, visiting 
 	case *ssa.UnOp:
 		if x.Op == token.MUL {
 			// a pointer/slice/map loaded from memory: the container decides
+			if fv, ok := x.X.(*ssa.FreeVar); ok && fn.Parent() != nil {
+				// a captured variable: its contents are whatever the enclosing function and its closures store there
+				if cell := bindingOf(fn, fv); cell != nil {
+					return vc.cellContents(fn.Parent(), cell, depth+1, visiting)
+				}
+				return "unknown"
+			}
 			o := vc.pointerOriginV(fn, x.X, depth+1, visiting)
 			if o == "local" || o == "fresh" {
 				// loaded from a local object: still could alias shared memory if the field was
 				// initialised from a parameter; look at what was stored there
+				if al, ok := x.X.(*ssa.Alloc); ok {
+					return vc.cellContents(fn, al, depth+1, visiting)
+				}
 				return vc.loadedFrom(fn, x.X, depth+1)
 			}
 			return o
@@ -91,6 +101,9 @@ func (vc *VC) pointerOriginV(fn *ssa.Function, v ssa.Value, depth int, visiting 
 		}
 		return res
 	case *ssa.Call:
+		if b, ok := x.Call.Value.(*ssa.Builtin); ok && b.Name() == "append" && len(x.Call.Args) > 0 && cappedSlice(x.Call.Args[0]) {
+			return "local" // append(s[:n:n], ...) always reallocates
+		}
 		if b, ok := x.Call.Value.(*ssa.Builtin); ok && b.Name() == "append" {
 			// append may write into the backing array of its first argument only beyond len; the
 			// result shares it.  For frame purposes the result has the provenance of the first argument
@@ -123,6 +136,89 @@ func (vc *VC) pointerOriginV(fn *ssa.Function, v ssa.Value, depth int, visiting 
 		return vc.pointerOriginV(fn, x.X, depth+1, visiting)
 	}
 	return "unknown"
+}
+
+// cappedSlice: v is s[lo:n:n] (capacity cut to the length), so an append to it cannot write into s's array.
+func cappedSlice(v ssa.Value) bool {
+	sl, ok := v.(*ssa.Slice)
+	return ok && sl.Max != nil && sl.High != nil && sameValue(sl.Max, sl.High)
+}
+
+func sameValue(a, b ssa.Value) bool {
+	if a == b {
+		return true
+	}
+	ca, ok1 := a.(*ssa.Call)
+	cb, ok2 := b.(*ssa.Call)
+	if ok1 && ok2 {
+		ba, ok3 := ca.Call.Value.(*ssa.Builtin)
+		bb, ok4 := cb.Call.Value.(*ssa.Builtin)
+		if ok3 && ok4 && ba.Name() == "len" && bb.Name() == "len" && len(ca.Call.Args) == 1 && len(cb.Call.Args) == 1 {
+			return ca.Call.Args[0] == cb.Call.Args[0]
+		}
+	}
+	return false
+}
+
+// bindingOf: the variable of the enclosing function that free variable fv of closure fn refers to.
+func bindingOf(fn *ssa.Function, fv *ssa.FreeVar) ssa.Value {
+	idx := -1
+	for i, v := range fn.FreeVars {
+		if v == fv {
+			idx = i
+		}
+	}
+	if idx < 0 || fn.Parent() == nil {
+		return nil
+	}
+	for _, b := range fn.Parent().Blocks {
+		for _, ins := range b.Instrs {
+			if mc, ok := ins.(*ssa.MakeClosure); ok && mc.Fn == fn && idx < len(mc.Bindings) {
+				return mc.Bindings[idx]
+			}
+		}
+	}
+	return nil
+}
+
+// cellContents: provenance of the value held by a local variable cell (an Alloc of function owner that may be
+// captured by closures): the join over everything stored into it by the owner and by its closures.
+func (vc *VC) cellContents(owner *ssa.Function, cell ssa.Value, depth int, visiting map[ssa.Value]bool) string {
+	if visiting[cell] {
+		return "local"
+	}
+	visiting[cell] = true
+	defer delete(visiting, cell)
+	res := "local"
+	scan := func(fn *ssa.Function, addr ssa.Value) string {
+		for _, b := range fn.Blocks {
+			for _, ins := range b.Instrs {
+				st, ok := ins.(*ssa.Store)
+				if !ok || st.Addr != addr {
+					continue
+				}
+				o := vc.pointerOriginV(fn, st.Val, depth+1, visiting)
+				if o != "local" && o != "fresh" {
+					return o
+				}
+			}
+		}
+		return "local"
+	}
+	if o := scan(owner, cell); o != "local" {
+		return o
+	}
+	for _, anon := range owner.AnonFuncs {
+		for i, fv := range anon.FreeVars {
+			_ = i
+			if bindingOf(anon, fv) == cell {
+				if o := scan(anon, fv); o != "local" {
+					return o
+				}
+			}
+		}
+	}
+	return res
 }
 
 // loadedFrom: the value loaded from a field/cell of a local object is whatever was stored there.
@@ -227,13 +323,27 @@ func (vc *VC) FrameCheck() *FrameReport {
 				case *ssa.Call:
 					// standard-library functions that write through an argument
 					if c := x.Call.StaticCallee(); c != nil {
-						switch c.String() {
-						case "sort.Float64s", "sort.Ints", "sort.Strings", "sort.Slice", "sort.Sort", "sort.Stable":
-							addr, what = x.Call.Args[0], c.String()
+						name := c.String()
+						if o := c.Origin(); o != nil {
+							name = o.String()
+						}
+						switch name {
+						case "sort.Float64s", "sort.Ints", "sort.Strings", "sort.Slice", "sort.SliceStable", "sort.Sort", "sort.Stable",
+							"slices.Sort", "slices.SortFunc", "slices.SortStableFunc", "slices.Reverse", "slices.Compact", "slices.CompactFunc",
+							"slices.Insert", "slices.Delete", "slices.DeleteFunc", "slices.Replace", "math/rand.Shuffle":
+							if len(x.Call.Args) > 0 {
+								addr, what = x.Call.Args[0], name
+							}
 						}
 					}
 					if bi, ok := x.Call.Value.(*ssa.Builtin); ok && bi.Name() == "copy" {
 						addr, what = x.Call.Args[0], "copy"
+					}
+					if bi, ok := x.Call.Value.(*ssa.Builtin); ok && bi.Name() == "append" && len(x.Call.Args) > 0 {
+						// append writes into the backing array of its first argument when it has spare capacity
+						if _, isNil := x.Call.Args[0].(*ssa.Const); !isNil && !cappedSlice(x.Call.Args[0]) {
+							addr, what = x.Call.Args[0], "append into spare capacity"
+						}
 					}
 				}
 				if addr == nil {
